@@ -14,15 +14,15 @@ import (
 const marker = 1 << 40
 
 type tgt struct {
-	name   string
-	entry  uintptr
-	call   func(a int) int
-	orig   func(a int) int
-	handle func(b *mocker.Builder) mocker.ExportedMocker
-	cb     func(v int) interface{}
-	ocb    func() interface{} // callback that calls the origin placeholder
-	ph     interface{}        // pointer to placeholder var
-	phAddr uintptr
+	name        string
+	entry       uintptr
+	call        func(a int) int
+	orig        func(a int) int
+	handle      func(b *mocker.Builder) mocker.ExportedMocker
+	cb          func(v int) interface{}
+	ocb         func() interface{} // callback that calls the origin placeholder
+	ph          interface{}        // pointer to placeholder var
+	phAddr      uintptr
 	recvIsParam bool // As(): the receiver is an ordinary first parameter of the stub
 }
 
